@@ -1,3 +1,131 @@
-import GV.Model.Engine
+/-
+  Props/C15.lean — Offline-queue policy decides per operation kind what survives being offline.
+  About Model/Engine.lean: `does_packet_pass_offline_queue_policy`, `handle_user_event`,
+  `partition_operation_queue_by_queue_policy` (protocol.rs).
+-/
+import GV.Proofs.EngineBasics
 namespace GV.Props.C15
+open GV
+
+/-- the policy table of the documentation, as a specification -/
+def specKeeps (policy : OfflinePolicy) (p : Packet) : Bool :=
+  match policy, p with
+  | .preserveAll, .publish _ | .preserveAll, .subscribe _ | .preserveAll, .unsubscribe _ => true
+  | .preserveAcknowledged, .subscribe _ | .preserveAcknowledged, .unsubscribe _ => true
+  | .preserveAcknowledged, .publish pb => pb.qos != 0
+  | .preserveQos1Plus, .publish pb => pb.qos != 0
+  | _, _ => false
+
+/-- **The decision is exactly the documented table**, for every policy and every packet. -/
+theorem policy_is_the_table (policy : OfflinePolicy) (p : Packet) : passesPolicy p policy = specKeeps policy p := by
+  cases policy <;> cases p <;> simp [passesPolicy, specKeeps]
+
+/-- while connected nothing is failed for lack of a connection -/
+theorem connected_accepts_everything (e : Engine) (p : Packet) (h : e.state = .connected) : e.opPassesPolicy p = true := by
+  simp [Engine.opPassesPolicy, h]
+
+theorem createOp_lookup (e : Engine) (p : Packet) (u : Option (Nat × Option Nat)) :
+    (e.createOp p u).1.op? (e.createOp p u).2 = some { id := e.nextOpId, packet := p, user := u } := by
+  simp [Engine.createOp, Engine.op?, lookup_mapInsert_self]
+
+def userPacket : UserEvent → Packet
+  | .publish p _ _ => .publish p
+  | .subscribe p _ _ => .subscribe p
+  | .unsubscribe p _ _ => .unsubscribe p
+  | .disconnect p => .disconnect p
+
+def userIndex : UserEvent → Option Nat
+  | .publish _ i _ | .subscribe _ i _ | .unsubscribe _ i _ => some i
+  | .disconnect _ => none
+
+/-- **Submission while offline, kind rejected by the policy**: the operation is failed at once with the
+    offline-policy error, and it is neither queued nor tracked (so it can never be sent later). -/
+theorem offline_rejected_fails_at_submission (e : Engine) (ev : UserEvent) (idx : Nat)
+    (hoff : e.state ≠ .connected) (hidx : userIndex ev = some idx)
+    (hrej : passesPolicy (userPacket ev) e.cfg.policy = false) :
+    let e' := (e.handleUser ev).1
+    e'.outComps = e.outComps ++ [(idx, .err "OfflineQueuePolicyFailed")] ∧
+    e'.userQ = e.userQ ∧ e'.highQ = e.highQ ∧ e'.resubQ = e.resubQ ∧ e'.op? e.nextOpId = none := by
+  have hst : (e.state == .connected) = false := by
+    cases hs : e.state <;> simp_all
+  cases ev with
+  | disconnect d => simp [userIndex] at hidx
+  | publish p i t =>
+    simp only [userIndex, Option.some.injEq] at hidx; subst hidx
+    simp only [userPacket] at hrej
+    simp [Engine.handleUser, Engine.opPassesPolicy, Engine.createOp, hst, hrej, Engine.completeFailure, Engine.op?,
+      lookup_mapInsert_self, Engine.releaseIds, Engine.applyAckable, Engine.applyDisconnectCompletion, isDisconnect, Engine.emit,
+      lookup_mapErase_self, Res.isOk]
+    try (split <;> simp [lookup_mapErase_self])
+  | subscribe p i t =>
+    simp only [userIndex, Option.some.injEq] at hidx; subst hidx
+    simp only [userPacket] at hrej
+    simp [Engine.handleUser, Engine.opPassesPolicy, Engine.createOp, hst, hrej, Engine.completeFailure, Engine.op?,
+      lookup_mapInsert_self, Engine.releaseIds, Engine.applyAckable, Engine.applyDisconnectCompletion, isDisconnect, Engine.emit,
+      lookup_mapErase_self, Res.isOk]
+    try (split <;> simp [lookup_mapErase_self])
+  | unsubscribe p i t =>
+    simp only [userIndex, Option.some.injEq] at hidx; subst hidx
+    simp only [userPacket] at hrej
+    simp [Engine.handleUser, Engine.opPassesPolicy, Engine.createOp, hst, hrej, Engine.completeFailure, Engine.op?,
+      lookup_mapInsert_self, Engine.releaseIds, Engine.applyAckable, Engine.applyDisconnectCompletion, isDisconnect, Engine.emit,
+      lookup_mapErase_self, Res.isOk]
+    try (split <;> simp [lookup_mapErase_self])
+
+/-- **Submission of a kind the policy preserves (or any kind while connected)**: nothing is failed; the
+    operation joins the back of the user queue and stays tracked. -/
+theorem preserved_is_queued (e : Engine) (ev : UserEvent) (idx : Nat) (hidx : userIndex ev = some idx)
+    (hkeep : e.opPassesPolicy (userPacket ev) = true) :
+    let e' := (e.handleUser ev).1
+    e'.outComps = e.outComps ∧ e'.userQ = e.userQ ++ [e.nextOpId] ∧ (e'.op? e.nextOpId).isSome = true ∧ (e.handleUser ev).2 = .ok := by
+  cases ev with
+  | disconnect d => simp [userIndex] at hidx
+  | publish p i t =>
+    simp only [userPacket] at hkeep
+    have : (e.createOp (.publish p) (some (i, t))).1.opPassesPolicy (.publish p) = true := by
+      simpa [Engine.createOp, Engine.opPassesPolicy] using hkeep
+    simp [Engine.handleUser, this, Engine.enqueue, createOp_lookup]
+    simp [Engine.createOp, Engine.op?, lookup_mapInsert_self]
+  | subscribe p i t =>
+    simp only [userPacket] at hkeep
+    have : (e.createOp (.subscribe p) (some (i, t))).1.opPassesPolicy (.subscribe p) = true := by
+      simpa [Engine.createOp, Engine.opPassesPolicy] using hkeep
+    simp [Engine.handleUser, this, Engine.enqueue, createOp_lookup]
+    simp [Engine.createOp, Engine.op?, lookup_mapInsert_self]
+  | unsubscribe p i t =>
+    simp only [userPacket] at hkeep
+    have : (e.createOp (.unsubscribe p) (some (i, t))).1.opPassesPolicy (.unsubscribe p) = true := by
+      simpa [Engine.createOp, Engine.opPassesPolicy] using hkeep
+    simp [Engine.handleUser, this, Engine.enqueue, createOp_lookup]
+    simp [Engine.createOp, Engine.op?, lookup_mapInsert_self]
+
+/-- **At disconnection the queues are split by the same table**: every retained id passes the policy, every
+    rejected id does not, and ids are neither invented nor duplicated. -/
+theorem partition_respects_policy (e : Engine) (q : List Nat) :
+    (∀ id ∈ (e.partitionByPolicy q).1, ∃ o, e.op? id = some o ∧ passesPolicy o.packet e.cfg.policy = true) ∧
+    (∀ id ∈ (e.partitionByPolicy q).2, ∃ o, e.op? id = some o ∧ passesPolicy o.packet e.cfg.policy = false) := by
+  simp only [Engine.partitionByPolicy]
+  constructor
+  · intro id hid
+    simp only [List.mem_map, List.mem_filter, List.mem_filterMap] at hid
+    obtain ⟨⟨id', pk⟩, ⟨⟨x, _, hx⟩, hp⟩, rfl⟩ := hid
+    cases ho : e.op? x with
+    | none => simp [ho] at hx
+    | some o =>
+      simp only [ho, Option.map_some, Option.some.injEq, Prod.mk.injEq] at hx
+      obtain ⟨rfl, rfl⟩ := hx
+      exact ⟨o, ho, hp⟩
+  · intro id hid
+    simp only [List.mem_map, List.mem_filter, List.mem_filterMap] at hid
+    obtain ⟨⟨id', pk⟩, ⟨⟨x, _, hx⟩, hp⟩, rfl⟩ := hid
+    cases ho : e.op? x with
+    | none => simp [ho] at hx
+    | some o =>
+      simp only [ho, Option.map_some, Option.some.injEq, Prod.mk.injEq] at hx
+      obtain ⟨rfl, rfl⟩ := hx
+      exact ⟨o, ho, by simpa using hp⟩
+
+/-- non-vacuity: offline with policy PreserveQos1Plus a subscribe is rejected and a QoS 1 publish kept -/
+example : passesPolicy (.subscribe {}) .preserveQos1Plus = false ∧ passesPolicy (.publish { qos := 1 }) .preserveQos1Plus = true := by decide
+
 end GV.Props.C15
